@@ -55,3 +55,25 @@ Theorem C03_kzg10_batch_shape :
     batch_check vk cs zs vs pfs tape = Err EIncorrectInputLength.
 Proof. exact @batch_check_lengths. Qed.
 Print Assumptions C03_kzg10_batch_shape.
+
+(* Ligero (univariate; ideal column commitment): whatever proof is presented against the committed matrix - any vector,
+   any columns, any paths, any well-formedness vector - if the verifier's loops pass although the vector sent is not
+   the b-combination of the committed rows, then the queried positions contain fewer than n_cols distinct ones, out of
+   the n_ext = rho_inv * n_cols positions of the codeword: the agreement set that the number of queries t is
+   computed against (C13).  The positions of the FFT domain are distinct for a primitive n_ext-th root of unity. *)
+From PC Require Import Schemes.CalcT Schemes.Ligero Proofs.LigeroFacts.
+Theorem C03_ligero_few_agreements :
+  forall (FO : FieldOps) (FL : FieldLaws FO) wf n_rows n_cols n_ext omega rows z value pf r idx res,
+    NoDup (dom omega n_ext) -> Forall (fun r => (length r <= n_cols)%nat) rows ->
+    Forall (fun i => (i < n_ext)%nat) idx ->
+    l_check wf n_rows n_cols n_ext omega (map (encode omega n_ext) rows) z value pf r idx = Ok res ->
+    (exists x, eval (lf_v pf) x <> eval (rowcomb rows n_cols (snd (tensor_uni z n_cols n_rows))) x) ->
+    forall J, NoDup J -> incl J idx -> (length J < n_cols)%nat.
+Proof. exact @ligero_few_agreements. Qed.
+Print Assumptions C03_ligero_few_agreements.
+
+Theorem C03_fft_domain_positions_distinct :
+  forall (FO : FieldOps) (FL : FieldLaws FO) omega n,
+    fpow omega n = 1 -> (forall k, (0 < k < n)%nat -> fpow omega k <> 1) -> NoDup (dom omega n).
+Proof. exact @primitive_root_domain_distinct. Qed.
+Print Assumptions C03_fft_domain_positions_distinct.
